@@ -259,10 +259,10 @@ func buildAuthenticator(s *Server, rec *recorder) runtime.Authenticator {
 
 // observation is what the real pipeline did.
 type observation struct {
-	applies   bool
-	principal interface{}
-	err       error
-	calls     []call
+	applies     bool
+	principal   interface{}
+	err         error
+	calls       []call
 	failedRealm string
 	schemeName  string
 	ctxOut      bool // the request carries the value a Ctx callback added
